@@ -1,6 +1,7 @@
 import QcelVerif.Model.Schema
 import QcelVerif.Model.MolSchema
 import QcelVerif.Model.MolDict
+import QcelVerif.Model.ResultKwargs
 import QcelVerif.Model.Hash
 import QcelVerif.Gen.SchemaC09
 import QcelVerif.Lib.Proto
@@ -12,6 +13,9 @@ Line-protocol driver for the C09 models.  One output line per input line.
   conf|<Model>|<val>          -> `<hasType> <validate against EXPORTED schema> <emitted json>`
   val|<Model>|<json>          -> `T` | `F`   (exported schema, arbitrary JSON document)
   pat|<pattern>|<string>      -> `T` | `F`   (the pattern matcher)
+  build|<Model>|<kwargs val>  the constructor models of Model/ResultValues.lean on keyword input (Model/ResultKwargs.lean)
+                              -> `ok <input.ok> <input.uniq> <hasType of the value> <validate, exported schema> <emitted json>`
+                              | `refused <input.ok> <input.uniq>` (a validator of the model refuses) | `bad-op` (unreadable keywords)
   toschema|<v>|<dflt>|<fg>|<molrec fields…>      -> the schema dictionary
   fromschema|<name>|<version>|M/T|<moldict …>    -> the from_arrays arguments | `err <kind>`
   construct|<name>|<version>|<dflt>|<fg>|<default masses>|<kwargs moldict (19)>|<molrec (20)>
@@ -207,6 +211,18 @@ def conf (model : String) (payload : String) : String :=
     s!"{tf (hasType env fuelT v (.model model))} {tf (validate defs fuelV root j)} {showJson j}"
   | _, _ => "bad-op"
 
+open QcelVerif.Gen.SchemaC09 in
+def buildOp (model : String) (payload : String) : String :=
+  match parseVal payload.toList, exportedOf model with
+  | some (v, []), some (root, defs) =>
+    (match QcelVerif.ResultKwargs.build model v with
+     | some (ok, uq, some val) =>
+       let j := emit env val
+       s!"ok {tf ok} {tf uq} {tf (hasType env fuelT val (.model model))} {tf (validate defs fuelV root j)} {showJson j}"
+     | some (ok, uq, none) => s!"refused {tf ok} {tf uq}"
+     | none => "bad-op")
+  | _, _ => "bad-op"
+
 def valOp (model : String) (payload : String) : String :=
   match parseJson payload.toList, exportedOf model with
   | some (j, []), some (root, defs) => tf (validate defs fuelV root j)
@@ -352,6 +368,7 @@ def step (line : String) : String :=
   | ["wf"] => tf (Env.wf QcelVerif.Gen.SchemaC09.env)
   | ["conf", m, p] => conf m p
   | ["val", m, p] => valOp m p
+  | ["build", m, p] => buildOp m p
   | ["pat", p, s] => (match strP p, strP s with | some p, some s => tf (matchPat p s) | _, _ => "bad-op")
   | "toschema" :: v :: d :: fgv :: rest => toSchemaOp v d fgv rest
   | "fromschema" :: nm :: ver :: tag :: rest => fromSchemaOp nm ver tag rest
